@@ -547,3 +547,34 @@ func H_C07_nilShadows() {
 	vfNote(out)
 	vfAssert(out == "[false][inner][true]", "a variable holding nil shadows outer variables of its name until its body ends")
 }
+
+// H_C07_assignNoAlias: '=' rebinds one variable and touches nothing else: a copy made
+// earlier keeps the old value, the literal in the template is the same on the next
+// execution, and data being ranged over is not written to - for numbers, strings, values
+// copied from other variables and range elements reached through a pointer.
+//
+//gosym:reach rendered
+func H_C07_assignNoAlias() {
+	c := ndChoice("case", 5)
+	srcs := []string{
+		`{{ a := 1 }}{{ b := a }}{{ a = 2 }}[{{ a }}{{ b }}]`,
+		`{{ s := "x" }}{{ t := s }}{{ s = "y" }}[{{ s }}{{ t }}]`,
+		`{{ x := 1 }}{{ y := x }}{{ x = x + 3 }}[{{ x }}{{ y }}]`,
+		`{{ range i, e := ps }}{{ e = "Z" }}{{ e }}{{ end }}[{{ ps[0] }}{{ ps[1] }}]`,
+		`{{ v := first }}{{ w := v }}{{ v = "n" }}[{{ v }}{{ w }}{{ first }}]`,
+	}
+	wants := []string{"[21]", "[yx]", "[41]", "ZZ[ab]", "[nff]"}
+	set := hxSet(nil, "/m.jet", srcs[c])
+	data := []string{"a", "b"}
+	for run := 0; run < 2; run++ {
+		vars := make(VarMap)
+		vars.Set("ps", &data)
+		vars.Set("first", "f")
+		out, err := hxExec(set, "/m.jet", vars, nil)
+		vfAssert(err == nil, "renders")
+		vfNote(out)
+		vfAssert(out == wants[c], "assignment rebinds the one variable; copies, literals and ranged-over data keep their values (also on the next execution)")
+	}
+	vfReach("rendered")
+	vfAssert(data[0] == "a" && data[1] == "b", "the data ranged over is not modified")
+}
